@@ -15,7 +15,8 @@ Inductive c13case :=
 | CSkip    (* a run the harness could not use (batch composition not attributable); counted, not judged *)
 | CRun (init : list (N * N * N))          (* rows the set-up stored: (id, content, cell) *)
        (batches : list (list req))        (* the batches the writer formed (from the hook's trace), in order *)
-       (unsent : list req)                (* requests that never reached a batch (process died before) *)
+       (unsent : list (req * bool))       (* requests that never reached a batch: the process died before (false),
+                                             or the first validation refused them, answered Err upstream (true) *)
        (f : fault_spec).
 
 Definition init_disk (init : list (N * N * N)) : disk :=
@@ -68,7 +69,7 @@ Definition run_model (c : c13case) : list Z :=
       let dr := restart (rr_state r) in
       let live (q : req) : Z := if rr_alive r then vis d' q else -1 in
       flat_map (fun x => [ack_code (it_ack x); live (it_req x); vis dr (it_req x)]) (rr_items r)
-      ++ flat_map (fun q => [0; live q; vis dr q]) unsent
+      ++ flat_map (fun x : req * bool => [if snd x then 2 else 0; live (fst x); vis dr (fst x)]) unsent
       ++ [zb (rr_alive r); zn (if rr_alive r then rr_hits r else rr_last r);
           zb (loginv_b d'); zb (consistent_b dr); 1; 1]
   end.
@@ -139,11 +140,12 @@ Definition wf_case (c : c13case) : bool :=
   | CSkip => true
   | CRun init batches unsent f =>
       let d0 := init_disk init in
-      let rs := concat batches ++ unsent in
+      let rs := concat batches ++ map fst unsent in
       nodup_keys (map op_key (flat_map req_ops rs)) &&          (* requests touch pairwise different rows *)
       forallb (fun o => negb (reflected d0 o)) (flat_map req_ops rs) &&  (* none of their effects is there beforehand *)
       forallb (covers code_skeleton) (concat batches) &&        (* the marks cover the cells written (C09) *)
       forallb req_shape rs &&
+      forallb (fun x : req * bool => negb (snd x && match r_kind (fst x) with KCompute | KOptimize => true | _ => false end)) unsent &&
       loginv_b d0
   end.
 
